@@ -20,3 +20,28 @@ CHECKS = {
         "note": _NOTE,
     },
 }
+
+CHECKS["C01"] = {
+    "design_ref": "DESIGN.md section 5 C01",
+    "technique": "runtime range/type post-condition monitors on every public "
+                 "metric function and evaluate(), seeded valid-input workloads + "
+                 "repository tests as workload",
+    "text": "Every value returned by the 46 public metric functions and 13 "
+            "evaluate() functions during the run satisfied the range its "
+            "docstring documents (kinds table in vlib/kinds.py); violations are "
+            "reduced to mechanism keys and compared with known_findings.json. "
+            "Exploration over seeded valid inputs incl. degenerate shapes.",
+    "note": _NOTE,
+}
+CHECKS["C13"] = {
+    "design_ref": "DESIGN.md section 5 C13",
+    "technique": "runtime post-condition monitors on util interval helpers vs a "
+                 "piecewise-constant-function reference model (all client and "
+                 "internal calls)",
+    "text": "Every observed call of adjust_intervals, adjust_events, "
+            "merge_labeled_intervals, interpolate_intervals, intervals_to_samples, "
+            "boundaries_to_intervals, intervals_to_boundaries on time-ordered "
+            "input satisfied its post-condition, probed at the mid-point of every "
+            "elementary interval; limits drawn in every relation to the data.",
+    "note": _NOTE,
+}
